@@ -6,9 +6,11 @@
  "replace": ["searchopt"],
  "annotate": ["util/getopt.c"],
  "defines": ["VERIF_HALLOC", "GO_NOPTS_MAX=4", "GO_STRMAX=6", "GO_ARGC_MAX=4", "VERIF_STRMAX=8", "GSPEC_NAMEMAX=8"],
+ "thorough_defines": ["GO_STRMAX=10", "VERIF_STRMAX=12", "GSPEC_NAMEMAX=16"],
  "models": ["models/libc_string.c", "models/libc_misc.c", "models/getopt_stdio.c"],
- "timeout": 300,
- "assumptions": ["option table object <= 4 slots, argv object <= 4 pointers, every string <= 6 characters in an exact-size heap block, arbitrary content",
+ "timeout": 600,
+ "thorough_timeout": 2400,
+ "assumptions": ["option table object <= 4 slots, argv object <= 4 pointers, every string <= 6 (thorough: 10) characters in an exact-size heap block, arbitrary content",
                  "searchopt replaced by its contract (proved in go_searchopt)",
                  "fprintf(stderr, ...) modelled as 'a message was printed' (models/getopt_stdio.c); abort() ends the path"]
 }
